@@ -109,11 +109,9 @@ func (e *env) child(channel string, opts map[string][]string, withAPI bool) (*li
 	c, err := lib.StartCLIAt(lib.Bin(e.run, "forwarder"), args, envs, filepath.Join(e.run.Work, fmt.Sprintf("wiring-%s-%d.log", channel, n)), lib.FreeAddr(), api)
 	if err != nil {
 		// every option used here is documented: a binary that refuses one of them cannot honour it
-		for _, sign := range []string{"unknown flag", "invalid argument", "unknown shorthand", "invalid value", "unknown command"} {
-			if strings.Contains(err.Error(), sign) {
-				e.viol("configuration-rejected", fmt.Sprintf("[%s] the binary refused a documented configuration: %s", channel, lib.Trunc(err.Error(), 600)), map[string]any{"args": args, "env": envs})
-				break
-			}
+		// (the unchanged tree starts with each of these configurations; a port taken by somebody else is not the binary's fault)
+		if strings.Contains(err.Error(), "exited early") && !strings.Contains(err.Error(), "address already in use") {
+			e.viol("configuration-rejected", fmt.Sprintf("[%s] the binary refused a documented configuration: %s", channel, lib.Trunc(tailOf(err.Error(), 500), 500)), map[string]any{"args": args, "env": envs})
 		}
 	}
 	return c, err
@@ -1052,6 +1050,13 @@ func (e *env) pacEval(ch string) bool {
 		}
 	}
 	return true
+}
+
+func tailOf(s string, n int) string {
+	if len(s) > n {
+		return s[len(s)-n:]
+	}
+	return s
 }
 
 var _ = net.Dial
